@@ -244,7 +244,7 @@ class DictDecoder:
             return dict(value)
 
         # Repeating element, recursively bind the values
-        if not recursive and var.list_element and isinstance(value, list):
+        if not recursive and var.list_element and collections.is_array(value):
             assert var.factory is not None
             return var.factory(
                 self.bind_value(meta, var, val, recursive=True) for val in value
@@ -295,6 +295,10 @@ class DictDecoder:
         if var.any_type or var.is_wildcard:
             # field can support any object return the value as it is
             return value
+
+        if collections.is_array(value):
+            # Tokens of an immutable model are encoded as a tuple
+            value = list(value)
 
         value = converter.serialize(value)
 
